@@ -388,6 +388,37 @@ func runC03(c *core.Ctx) {
 				}
 			}
 		}
+		// --- an earlier complete session, then all interleavings of two sessions (state left behind by a
+		// finished session that only shows once two later sessions overlap)
+		for h := 0; h < ns; h++ {
+			for a := 0; a < ns; a++ {
+				h, a := h, a
+				c.Case(fmt.Sprintf("%s/history+pair/%s+%s", sv.svc, sv.scripts[h].name, sv.scripts[a].name), func() {
+					for b := 0; b < ns; b++ {
+						if !c.Thorough() && (a+b+h)%2 == 1 {
+							continue
+						}
+						lens := []int{mkSess(sv, a, 1).nsteps(), mkSess(sv, b, 2).nsteps()}
+						interleavings(lens, func(order []int) {
+							if !c.Thorough() && switches(order) > 4 {
+								return
+							}
+							early := mkSess(sv, h, 3)
+							ss := []*c03Sess{mkSess(sv, a, 1), mkSess(sv, b, 2), early}
+							full := make([]int, 0, early.nsteps()+len(order))
+							for j := 0; j < early.nsteps(); j++ {
+								full = append(full, 2)
+							}
+							full = append(full, order...)
+							got, all := c03Run(c, sv, ss, full)
+							c.Count("executions", 1)
+							c03Check(c, sv, "history+interleaved", []int{a, b}, []int{1, 2}, got, all, solo, fmt.Sprintf("after a %s session: %v", sv.scripts[h].name, order))
+							c.Outcome(sv.svc, "h+p", fmt.Sprint(got[1], got[2]))
+						})
+					}
+				})
+			}
+		}
 		// --- sequential histories: N earlier sessions, then a probe
 		for _, n := range []int{1, 2, 3, 5} {
 			for h := 0; h < ns; h++ {
